@@ -126,14 +126,18 @@ func Lifetime(s Stored) Bounds {
 	cc := ParseCC(s.Header.Values("Cache-Control"))
 	ma := cc.Delta("max-age")
 	if ma.Present && ma.Valid {
+		if ma.Repeated {
+			// several differing values: the first one, or stale (§4.2.1)
+			return Bounds{0, ma.Value, "max-age-repeated"}
+		}
 		return Bounds{ma.Value, ma.Value, "max-age"}
 	}
-	rest := lifetimeNoMaxAge(s, cc)
 	if ma.Present {
-		// invalid max-age: "stale" and "ignored" are both legitimate
-		return Bounds{0, rest.High, "max-age-invalid/" + rest.Note}
+		// a max-age that cannot be read is invalid freshness information:
+		// the response is stale, and Expires stays ignored (§4.2.1)
+		return Bounds{0, 0, "max-age-invalid"}
 	}
-	return rest
+	return lifetimeNoMaxAge(s, cc)
 }
 
 func lifetimeNoMaxAge(s Stored, cc CC) Bounds {
@@ -165,6 +169,6 @@ func lifetimeNoMaxAge(s Stored, cc CC) Bounds {
 	if tenHi < tenLo {
 		tenLo, tenHi = tenHi, tenLo
 	}
-	// ±1 s band: the repository rounds to the nearest second
-	return Bounds{max(tenLo-time.Second, 0), SatAdd(tenHi, time.Second), "heuristic"}
+	// "at most 10 %": whole seconds, never rounded up; less is always allowed
+	return Bounds{max(tenLo.Truncate(time.Second)-time.Second, 0), tenHi, "heuristic"}
 }
